@@ -216,6 +216,7 @@ impl Check for C17 {
         let mut cfg = IterCfg { max_size, ..Default::default() };
         cfg.allow = cases::gen_allow(&mut rng, 40);
         cfg.capacity = io::gen_capacity(&mut rng, bytes.len());
+        crate::harness::gen_cfg_history(&mut rng, &mut cfg);
         let mut script = io::gen_rscript(&mut rng, bytes.len(), &[]);
         // after the scripted chunks the source fills whatever buffer it is offered, so that a
         // legitimate multi-megabyte payload does not take millions of calls
